@@ -213,3 +213,22 @@ PROPS["C19"] = dict(
     level_note="Callback behaviours are programs over the public jwt_t API only (no raw memory writes).",
     design_ref="DESIGN.md section 7, C19",
 )
+
+
+PROPS["C13"] = dict(
+    level="model_checking", exhaustive=True,
+    stages=lambda tier, seed: [mc("seq", "MC_C13", "MC_C13_%s.cfg" % tier)],
+    rule="from MC_C13: all sequences of length 4 (quick) / 5 (thorough) over 12 checker elements (verify valid, bad "
+         "signature, expired, no dot, header not JSON, no alg, NULL, empty, algorithm mismatch, callback failing then "
+         "restored, refused setkey, error_clear) on one checker, and over 6 builder elements (generate, failing "
+         "callback, key below the floor then restored, refused setkey, error_clear, claim change) on one builder; "
+         "every verify/generate is also performed on a freshly created twin configured by replaying the same "
+         "configuration calls, and both results are logged. distinct = distinct sequences.",
+    assumptions=ASSUME_COMMON + ["'identically configured' = the same sequence of configuration calls replayed on a new object"],
+    level_text="TLC enumerates every history up to the bound; on the specification the configuration a verdict is "
+               "computed from is shown to be a function of the configuration calls alone (invariant "
+               "ConfigOnlyFromConfigCalls); each history is executed and every verdict (and, for the deterministic "
+               "HS256, every token byte for byte) must equal the fresh twin's.",
+    level_note="Bounded history length; HS256 keys only (the hidden state the property is about lives in the builder/checker objects, not in the providers).",
+    design_ref="DESIGN.md section 7, C13",
+)
